@@ -24,6 +24,7 @@
 import Mathlib.Analysis.Real.Sqrt
 import Rsa.Lemmas.C19Geom
 import Rsa.Lemmas.C19Rdm
+import Rsa.Lemmas.C19Eval
 
 set_option linter.unusedSectionVars false
 set_option linter.unusedVariables false
@@ -174,6 +175,97 @@ theorem centers_neighbors_consistent (s : Shape) (m : Vox → Bool) (r thr : K) 
   refine List.mem_map.mpr ⟨c, (mem_neighborsAlgo (K := K)).mpr ⟨hin, hr, ?_⟩, rfl⟩
   rw [sqDist_self]; simpa using mul_pos hr hr
 
+/-! ### 3b. boundary cases of radius and threshold (corollaries, all sizes) -/
+
+/-- radius `≤ 1` (and positive): the searchlight of an in-volume centre is the centre alone -/
+theorem radius_le_one_singleton (s : Shape) (c : Vox) (hc : InVol s c) (r : K) (h0 : 0 < r)
+    (h1 : r ≤ 1) (v : Vox) : v ∈ neighborsAlgo s (ctrOf c) r ↔ v = c := by
+  rw [mem_neighborsAlgo]
+  constructor
+  · rintro ⟨_, _, hd⟩
+    have hrr : r * r ≤ 1 := by nlinarith
+    have hlt : ((sqDist v (ctrOf c) : Int) : K) < ((1 : Int) : K) := by
+      rw [Int.cast_one]; exact lt_of_lt_of_le hd hrr
+    have hk : sqDist v (ctrOf c) < 1 := Int.cast_lt.mp hlt
+    have h0' := sqDist_nonneg v (ctrOf c)
+    exact sqDist_eq_zero (by omega)
+  · rintro rfl
+    refine ⟨hc, h0, ?_⟩
+    rw [sqDist_self]; simpa using mul_pos h0 h0
+
+/-- a radius not below the volume's diagonal: the searchlight of an in-volume centre is the
+    whole volume (every voxel, each once) -/
+theorem huge_radius_whole_volume (s : Shape) (c : Vox) (hc : InVol s c) (r : K) (h0 : 0 < r)
+    (hbig : (s.1 : K) * s.1 + (s.2.1 : K) * s.2.1 + (s.2.2 : K) * s.2.2 ≤ r * r) :
+    (∀ v, v ∈ neighborsAlgo s (ctrOf c) r ↔ InVol s v) ∧
+      (neighborsAlgo s (ctrOf c) r).Perm (allVoxels s) := by
+  have hmem : ∀ v, v ∈ neighborsAlgo s (ctrOf c) r ↔ InVol s v := by
+    intro v
+    rw [mem_neighborsAlgo]
+    constructor
+    · exact fun h => h.1
+    · intro hv
+      refine ⟨hv, h0, lt_of_lt_of_le ?_ hbig⟩
+      have h := Int.cast_lt (R := K) |>.mpr (sqDist_lt_diag hv hc)
+      push_cast at h
+      exact h
+  refine ⟨hmem, (List.perm_ext_iff_of_nodup (neighborsAlgo_nodup s _ r) (allVoxels_nodup s)).2 ?_⟩
+  intro v; rw [hmem, mem_allVoxels]
+
+/-- a mask voxel's own searchlight is never empty for a positive radius -/
+theorem spec_length_ne_zero (s : Shape) (c : Vox) (hc : InVol s c) (r : K) (h0 : 0 < r) :
+    (neighborsSpec s (ctrOf c) r).length ≠ 0 := by
+  have hmem : c ∈ neighborsSpec s (ctrOf c) r := by
+    rw [mem_neighborsSpec]
+    refine ⟨hc, h0, ?_⟩
+    rw [sqDist_self]; simpa using mul_pos h0 h0
+  exact fun h => by simp [List.length_eq_zero_iff.mp h] at hmem
+
+/-- threshold `≤ 0`: every mask voxel is accepted (positive radius) -/
+theorem threshold_zero_accepts_all (s : Shape) (m : Vox → Bool) (r thr : K) (h0 : 0 < r)
+    (ht : thr ≤ 0) (c : Vox) : c ∈ goodCenters s m r thr ↔ InVol s c ∧ m c = true := by
+  rw [centers_exact_mul]
+  constructor
+  · exact fun h => ⟨h.1, h.2.1⟩
+  · rintro ⟨hc, hm⟩
+    refine ⟨hc, hm, spec_length_ne_zero s c hc r h0, ?_⟩
+    have h1 : (0 : K) ≤ (((neighborsSpec s (ctrOf c) r).length : Nat) : K) := Nat.cast_nonneg _
+    have h2 : (0 : K) ≤ (((neighborsSpec s (ctrOf c) r).countP m : Nat) : K) := Nat.cast_nonneg _
+    nlinarith
+
+/-- threshold `> 1`: nothing is accepted -/
+theorem threshold_above_one_rejects_all (s : Shape) (m : Vox → Bool) (r thr : K) (ht : 1 < thr) :
+    goodCenters s m r thr = [] := by
+  rw [List.eq_nil_iff_forall_not_mem]
+  intro c hc
+  rw [centers_exact_mul] at hc
+  obtain ⟨_, _, hlen, hle⟩ := hc
+  have hpos : (0 : K) < (((neighborsSpec s (ctrOf c) r).length : Nat) : K) :=
+    Nat.cast_pos.mpr (Nat.pos_of_ne_zero hlen)
+  have hcl : (((neighborsSpec s (ctrOf c) r).countP m : Nat) : K)
+      ≤ (((neighborsSpec s (ctrOf c) r).length : Nat) : K) :=
+    Nat.cast_le.mpr List.countP_le_length
+  nlinarith
+
+/-- threshold exactly `1` (the default): accepted ⇔ the whole searchlight lies in the mask -/
+theorem threshold_one_iff_inside (s : Shape) (m : Vox → Bool) (r : K) (c : Vox) :
+    c ∈ goodCenters s m r 1 ↔
+      InVol s c ∧ m c = true ∧ 0 < r ∧ ∀ v ∈ neighborsSpec s (ctrOf c) r, m v = true := by
+  rw [centers_exact_mul]
+  constructor
+  · rintro ⟨hc, hm, hlen, hle⟩
+    have hr : 0 < r := by
+      obtain ⟨v, hv⟩ := List.exists_mem_of_ne_nil (neighborsSpec s (ctrOf c) r)
+        (fun h => hlen (by simp [h]))
+      exact ((mem_neighborsSpec (K := K)).mp hv).2.1
+    refine ⟨hc, hm, hr, ?_⟩
+    rw [one_mul, Nat.cast_le] at hle
+    have := Nat.le_antisymm List.countP_le_length hle
+    exact fun v hv => List.countP_eq_length.mp this v hv
+  · rintro ⟨hc, hm, hr, hall⟩
+    refine ⟨hc, hm, spec_length_ne_zero s c hc r hr, ?_⟩
+    rw [one_mul, List.countP_eq_length.mpr hall]
+
 /-! ### 4. one RDM per centre, chunked or not -/
 
 /-- for every `n` and every admissible list of split points the chunks of
@@ -194,6 +286,23 @@ theorem table_rows {γ : Type} (zero : γ) (f : Nat → γ) (n : Nat) (pts : Lis
     exact scatter_all f n zero (List.range n) (fun i hi => List.mem_range.mpr hi)
   · rfl
 
+/-- in fact **no hypothesis on the split points is needed** for coverage: whatever list of
+    points `np.linspace(...)` yields (unsorted, repeated, beyond `n` — numpy's doubles differ
+    from `⌊i·n/100⌋` for 836 of the `n` in 1001..20000), every centre index lies in some chunk
+    of `np.split(np.arange(n), pts)` (discrete intermediate-value argument) -/
+theorem chunks_cover_any_points (n : Nat) (pts : List Nat) :
+    ∀ i, i < n → i ∈ (splitIdx n pts).flatten := fun i hi => splitIdx_cover n pts i hi
+
+/-- hence both branches of `get_searchlight_RDMs` produce the same table for **every** list of
+    split points: a row written twice is written with the same value -/
+theorem table_rows_any_points {γ : Type} (zero : γ) (f : Nat → γ) (n : Nat) (pts : List Nat) :
+    slTable zero f n pts = (List.range n).map f := by
+  unfold slTable
+  split
+  · rw [foldl_assignRows]
+    exact scatter_all f n zero _ (fun i hi => splitIdx_cover n pts i hi)
+  · rfl
+
 /-- **RDM `i` belongs to centre `i`**: row `i` of the result is the RDM computed directly
     from the data columns of the `i`-th searchlight (`rdmOf` = any RDM estimator with the
     event labels fixed), below and above the chunking limit. -/
@@ -209,6 +318,29 @@ theorem rdm_per_center {α : Type} [Zero α] (rdmOf : List (List α) → List α
   refine ⟨by simp, fun i hi => ?_⟩
   have hi' : i < centers.length := hlen ▸ hi
   simp [hi', List.getD_eq_getElem?_getD, hi]
+
+/-- the same as one equation: the table of `get_searchlight_RDMs` is the neighbour lists mapped
+    to their direct RDMs, in the order given -/
+theorem rdm_rows_eq_map {α : Type} [Zero α] (rdmOf : List (List α) → List α) (width : Nat)
+    (data : List (List α)) (centers : List Nat) (neighbors : List (List Nat)) (pts : List Nat)
+    (hlen : neighbors.length = centers.length) :
+    slRdms rdmOf width data centers neighbors pts
+      = neighbors.map (fun nb => rdmOf (selectCols data nb)) := by
+  unfold slRdms
+  rw [table_rows_any_points, ← hlen]
+  exact range_map_getD neighbors [] (fun nb => rdmOf (selectCols data nb))
+
+/-- the executable admissibility check run by the driver on numpy's actual split points (all
+    `n` of 1001..20000) decides exactly the hypothesis of `chunks_partition` / `table_rows` -/
+theorem ptsOkB_sound (n : Nat) (pts : List Nat) : ptsOkB n pts = true ↔ PtsOk n pts :=
+  ptsOkB_iff n pts
+
+/-- so whenever the check succeeds on the points numpy produced, the chunks partition the
+    centres and the chunked table is the unchunked one -/
+theorem checked_points_partition {γ : Type} (zero : γ) (f : Nat → γ) (n : Nat) (pts : List Nat)
+    (h : ptsOkB n pts = true) :
+    (splitIdx n pts).flatten = List.range n ∧ slTable zero f n pts = (List.range n).map f :=
+  ⟨chunks_partition n pts ((ptsOkB_sound n pts).mp h), table_rows zero f n pts ((ptsOkB_sound n pts).mp h)⟩
 
 /-- a searchlight is a *set* of columns: the directly computed RDM does not depend on the
     order in which the neighbour list names them, for every pattern distance that is itself
@@ -232,6 +364,22 @@ theorem rdm_euclid_of_searchlight (data : List (List K)) (ev : List Int) (s : Sh
     calcRdm dEuclid ev (selectCols data ((neighborsAlgo s c r).map (ravel s)))
       = calcRdm dEuclid ev (selectCols data ((neighborsSpec s c r).map (ravel s))) :=
   rdm_columns_order_irrelevant dEuclid (fun _ _ a b hp => dEuclid_perm hp a b) data ev _ _
+    ((neighborsAlgo_perm_spec s c r).map _)
+
+/-- the same for the correlation distance (the library's default searchlight method), for any
+    square-root function, and for the symmetrised Poisson-KL distance, for any logarithm -/
+theorem rdm_corr_of_searchlight {F : Type} [Field F] [Rsa.HasSqrt F] (data : List (List F))
+    (ev : List Int) (s : Shape) (c : Ctr) (r : K) :
+    calcRdm dCorr ev (selectCols data ((neighborsAlgo s c r).map (ravel s)))
+      = calcRdm dCorr ev (selectCols data ((neighborsSpec s c r).map (ravel s))) :=
+  rdm_columns_order_irrelevant dCorr (fun _ _ a b hp => dCorr_perm hp a b) data ev _ _
+    ((neighborsAlgo_perm_spec s c r).map _)
+
+theorem rdm_poisson_of_searchlight {F : Type} [Field F] [Rsa.HasLog F] (data : List (List F))
+    (ev : List Int) (s : Shape) (c : Ctr) (r : K) :
+    calcRdm dPoisson ev (selectCols data ((neighborsAlgo s c r).map (ravel s)))
+      = calcRdm dPoisson ev (selectCols data ((neighborsSpec s c r).map (ravel s))) :=
+  rdm_columns_order_irrelevant dPoisson (fun _ _ a b hp => dPoisson_perm hp a b) data ev _ _
     ((neighborsAlgo_perm_spec s c r).map _)
 
 /-- link to C01: the pair distance used by this property's direct RDM is C01's specification
@@ -301,6 +449,70 @@ theorem parallel_perm_partial {γ : Type} (n : Nat) (f : Nat → γ) (sched : Li
   parallel_order_independent_partial n f sched
     (fun i hi => h.symm.subset (List.mem_range.mpr hi))
 
+/-! ### 5b. `evaluate_models_searchlight` as coded: one task per centre, end to end -/
+
+/-- `for x in sl_RDM` (legacy `__getitem__` iteration) builds exactly one task per row: row `i`
+    of the RDM table together with entry `i` of `voxel_index`, in row order, and stops after
+    the last row -/
+theorem tasks_one_per_center {α : Type} (R : SlResult α) :
+    slTasks R = R.rows.zip R.voxelIndex := slTasks_eq_zip R
+
+/-- **from `get_searchlight_RDMs` to the evaluation list**: if joblib keeps its contract
+    (`par tasks f = tasks.map f`, cf. `parallel_full`), entry `i` of the list returned by
+    `evaluate_models_searchlight` is the evaluation function applied to the RDM computed
+    directly from the columns of searchlight `i`, labelled with centre `i` — one entry per
+    centre, in centre order, chunked or not, for every list of split points. -/
+theorem eval_per_center {α γ : Type} [Zero α]
+    (par : List (List α × Nat) → (List α × Nat → γ) → List γ)
+    (hpar : ∀ ts f, par ts f = ts.map f) (evalF : List α × Nat → γ)
+    (rdmOf : List (List α) → List α) (width : Nat) (data : List (List α)) (centers : List Nat)
+    (neighbors : List (List Nat)) (pts : List Nat)
+    (hlen : neighbors.length = centers.length) :
+    evalSearchlight par evalF (slResult rdmOf width data centers neighbors pts)
+      = (neighbors.zip centers).map (fun p => evalF (rdmOf (selectCols data p.1), p.2)) := by
+  unfold evalSearchlight slResult
+  rw [hpar, tasks_one_per_center]
+  simp only
+  rw [rdm_rows_eq_map rdmOf width data centers neighbors pts hlen, List.zip_map_left,
+    List.map_map]
+  rfl
+
+/-- the same for slot-per-task collection under **every** completion order that runs every
+    task (any number of workers, any interleaving, repetitions allowed): every slot is filled,
+    slot `i` holds the evaluation of searchlight `i`'s direct RDM -/
+theorem eval_per_center_any_schedule {α γ : Type} [Zero α] (sched : List Nat)
+    (evalF : List α × Nat → γ)
+    (rdmOf : List (List α) → List α) (width : Nat) (data : List (List α)) (centers : List Nat)
+    (neighbors : List (List Nat)) (pts : List Nat)
+    (hlen : neighbors.length = centers.length)
+    (hs : ∀ i, i < centers.length → i ∈ sched) :
+    evalSearchlight (parCollect sched) (fun t => evalF t)
+        (slResult rdmOf width data centers neighbors pts)
+      = (neighbors.zip centers).map (fun p => some (evalF (rdmOf (selectCols data p.1), p.2))) := by
+  unfold evalSearchlight slResult
+  rw [tasks_one_per_center]
+  simp only
+  rw [rdm_rows_eq_map rdmOf width data centers neighbors pts hlen, List.zip_map_left]
+  rw [parCollect_all sched _ _ (fun i hi => hs i (by simpa [hlen] using hi)), List.map_map]
+  rfl
+
+/-- **the whole pipeline** `get_volume_searchlight → get_searchlight_RDMs →
+    evaluate_models_searchlight`: the result list is, for the accepted centres in ascending
+    linear index, the evaluation of the RDM computed directly from the data columns of that
+    centre's searchlight (for every mask, radius, threshold, estimator, evaluation function and
+    list of split points; joblib by contract) -/
+theorem pipeline_per_center {α γ : Type} [Zero α] (s : Shape) (m : Vox → Bool) (r thr : K)
+    (par : List (List α × Nat) → (List α × Nat → γ) → List γ)
+    (hpar : ∀ ts f, par ts f = ts.map f) (evalF : List α × Nat → γ)
+    (rdmOf : List (List α) → List α) (width : Nat) (data : List (List α)) (pts : List Nat) :
+    evalSearchlight par evalF (slResult rdmOf width data (volumeSearchlight s m r thr).1
+        (volumeSearchlight s m r thr).2 pts)
+      = (goodCenters s m r thr).map (fun c =>
+          evalF (rdmOf (selectCols data ((neighborsAlgo s (ctrOf c) r).map (ravel s))),
+                 ravel s c)) := by
+  rw [eval_per_center par hpar evalF rdmOf width data _ _ pts (by simp [volumeSearchlight])]
+  simp [volumeSearchlight, List.zip_map', List.map_map, Function.comp_def]
+
 /-! ### non-vacuity: concrete objects meeting the hypotheses -/
 
 -- a 2×3×4 volume, centre (0,1,2), radius 3/2: 14 voxels, algorithm order ≠ C order
@@ -324,5 +536,55 @@ example : ([2, 0, 3, 1] : List Nat).Perm (List.range 4) := by decide
 -- an accepted centre exists: full 3×3×3 mask, radius 3/2, threshold 1 accepts all 27 voxels
 example : (goodCenters (3, 3, 3) (fun _ => true) (3 / 2 : Rat) 1).length = 27 := by
   decide +kernel
+
+-- radius ≤ 1: hypotheses of `radius_le_one_singleton` hold and the searchlight is the centre
+example : InVol (2, 3, 4) (1, 2, 3) ∧ (0 : Rat) < 1 ∧ (1 : Rat) ≤ 1
+    ∧ neighborsAlgo (2, 3, 4) (ctrOf (1, 2, 3)) (1 : Rat) = [(1, 2, 3)] := by decide +kernel
+
+-- unsorted split points beyond `n`: not admissible, the chunks overlap, yet every index is covered
+example : ptsOkB 5 [4, 2, 9] = false ∧ splitIdx 5 [4, 2, 9] = [[0, 1, 2, 3], [], [2, 3, 4], []]
+    ∧ slTable 0 (fun i => i + 10) 5 [4, 2, 9] = (List.range 5).map (fun i => i + 10)
+    ∧ Rsa.Gen.C19.chunked 5 = false := by decide
+
+-- huge radius: 2² + 3² + 4² = 29 ≤ 6², the searchlight of a corner is all 24 voxels
+example : ((2 : Rat) * 2 + 3 * 3 + 4 * 4 ≤ 6 * 6)
+    ∧ (neighborsAlgo (2, 3, 4) (ctrOf (0, 0, 0)) (6 : Rat)).length = 24 := by decide +kernel
+
+-- thresholds 0 / 1 / above 1 on the 3×1×1 mask [1, 1, 0], radius 3/2: with 0 both mask
+-- voxels are accepted, with 1 only voxel 0 (the searchlight of voxel 1 touches the hole),
+-- above 1 none
+example : goodCenters (3, 1, 1) (fun v => decide (v.1 < 2)) (3 / 2 : Rat) 0 = [(0, 0, 0), (1, 0, 0)]
+    ∧ goodCenters (3, 1, 1) (fun v => decide (v.1 < 2)) (3 / 2 : Rat) 1 = [(0, 0, 0)]
+    ∧ goodCenters (3, 1, 1) (fun v => decide (v.1 < 2)) (3 / 2 : Rat) (3 / 2) = [] := by
+  decide +kernel
+
+-- the split-point check accepts the exact points and rejects a decreasing / overshooting list
+example : ptsOkB 1004 (floorPts 1004) = true ∧ ptsOkB 5 [3, 2] = false ∧ ptsOkB 5 [3, 6] = false := by
+  decide +kernel
+
+-- hypotheses of `eval_per_center` / `eval_per_center_any_schedule`: the order-preserving `par`
+-- exists; three centres with different searchlights, a schedule with a repetition; the three
+-- results are distinct, so "centre order" is a real constraint
+example : (∀ (ts : List (List Nat × Nat)) (f : List Nat × Nat → Nat), (fun ts f => ts.map f) ts f = ts.map f)
+    ∧ evalSearchlight (fun ts f => ts.map f) (fun t => t.1.sum * 100 + t.2)
+        (slResult (fun sub => sub.map List.sum) 0 [[1, 2, 3, 4], [5, 6, 7, 8]] [9, 7, 8]
+          [[0, 1], [1, 2, 3], [3]] []) = [1409, 3007, 1208]
+    ∧ evalSearchlight (parCollect [2, 0, 1, 2]) (fun t => t.1.sum * 100 + t.2)
+        (slResult (fun sub => sub.map List.sum) 0 [[1, 2, 3, 4], [5, 6, 7, 8]] [9, 7, 8]
+          [[0, 1], [1, 2, 3], [3]] []) = [some 1409, some 3007, some 1208]
+    ∧ (∀ i, i < 3 → i ∈ [2, 0, 1, 2]) := by
+  refine ⟨fun _ _ => rfl, by decide, by decide, by decide⟩
+
+-- an unfinished schedule leaves a slot empty: the hypothesis "every task runs" is needed
+example : evalSearchlight (parCollect [2, 0]) (fun t => t.2)
+    (slResult (fun sub => sub.map List.sum) 0 [[1, 2, 3, 4]] [9, 7, 8] [[0, 1], [1, 2, 3], [3]] [])
+      = [some 9, none, some 8] := by decide
+
+-- the pipeline on a 2×2×1 volume with one hole: three accepted centres, three results
+example : (evalSearchlight (fun ts f => ts.map f) (fun t => t.2)
+        (slResult (fun sub => sub.map List.sum) 0 [[1, 2, 3, 4]]
+          (volumeSearchlight (2, 2, 1) (fun v => decide (v ≠ (1, 1, 0))) (3 / 2 : Rat) (1 / 2)).1
+          (volumeSearchlight (2, 2, 1) (fun v => decide (v ≠ (1, 1, 0))) (3 / 2 : Rat) (1 / 2)).2 []))
+        = [0, 1, 2] := by decide +kernel
 
 end Rsa.Props.C19
